@@ -365,7 +365,9 @@ func checkC13(r *core.Run) {
 	}
 	prefixes := []string{"https://x.com/a/b/", "HTTPS://X.COM/", "//x.com/p/", "/a/", "/p", "about:blank#", "https://[::1]:8/d/",
 		"http://x.com/", "https://x.com", "https://x.com\\", "https:///x/", "//", "/\\x/", "//@x/", "x.com/", "", "javascript://x.com/", "https://x_y/", "https:/x/", "/", "ABOUT:BLANK#",
-		"/x..y/", "https://x.com/v1..2/", "http\u017f://x.com/", "//x\u212a.com/", "about:blan\u212a#", "HTTP\u017f://x.com/a/"}
+		"/x..y/", "https://x.com/v1..2/", "http\u017f://x.com/", "//x\u212a.com/", "about:blan\u212a#", "HTTP\u017f://x.com/a/",
+		// a marker directly after the leading '/', followed by something that reads as an origin once the marker is empty
+		"/%{x}/h.com/", "/%{x}\\h.com/", "/%{x}%{y}/h.com:8/"}
 	body := []string{"a", "/", ".", "%{x}", "%{y}", "%{", "}", "?", "#", "%2e", "%2E", "\\"}
 	argv := []string{"", ".", "..", "/", "\\", "?", "#", "%", "%2e", "%2E%2e", ":", "@", "é", "\x00", " ", "a/b", ".a", "a.", "a", "&=", "%2f"}
 	bl := 3
@@ -390,9 +392,9 @@ func checkC13(r *core.Run) {
 	var nfmt int64
 	core.ParallelFor(len(bodies), func(bi int) {
 		b := bodies[bi]
-		hasX, hasY := strings.Contains(b, "%{x}"), strings.Contains(b, "%{y}")
 		for _, p := range prefixes {
 			f := p + b
+			hasX, hasY := strings.Contains(f, "%{x}"), strings.Contains(f, "%{y}")
 			xs, ys := []int{-1}, []int{-1}
 			if hasX {
 				xs = make([]int, 0, len(argv)+1)
